@@ -43,7 +43,7 @@ import (
 	"go.uber.org/zap"
 )
 
-const ioWait = 5 * time.Second
+const ioWait = 10 * time.Second // generous: a loaded machine must not turn into a verdict
 
 // ---------------------------------------------------------------------------------------------
 // fake tunnel server
@@ -230,7 +230,11 @@ func pickProxy(g *gateway.Gateway, proto string) http.Handler {
 }
 
 func inbound(method, host, hostHeader, peer, proto, path string) *http.Request {
-	r := httptest.NewRequest(method, "https://"+hostHeader+path, nil)
+	var body io.Reader
+	if method == http.MethodPost || method == http.MethodPut {
+		body = strings.NewReader("verif-payload")
+	}
+	r := httptest.NewRequest(method, "https://"+hostHeader+path, body)
 	r.Host = hostHeader
 	r.RemoteAddr = net.JoinHostPort(peer, "51000")
 	r.TLS = &tls.ConnectionState{ServerName: host, HandshakeComplete: true, Version: tls.VersionTLS13, CipherSuite: tls.TLS_AES_128_GCM_SHA256}
@@ -247,6 +251,7 @@ func runRewrite() {
 	verifkit.EachCase(func(i int, raw json.RawMessage) {
 		c := verifkit.Decode[struct {
 			Proto      string
+			Method     string
 			Port       int
 			Peer       string
 			Host       string
@@ -267,7 +272,10 @@ func runRewrite() {
 			go serveOnce(c2, "ok", got)
 			return c1, nil
 		})
-		r := inbound("GET", c.Host, c.HostHeader, c.Peer, c.Proto, "/some/path?x=1")
+		if c.Method == "" {
+			c.Method = http.MethodGet
+		}
+		r := inbound(c.Method, c.Host, c.HostHeader, c.Peer, c.Proto, "/some/path?x=1")
 		r.Header.Set("User-Agent", "verif")
 		r.Header.Set("X-Custom", "keep")
 		for _, h := range c.Hdrs {
